@@ -1,12 +1,81 @@
+Bind/Model.vo Bind/Model.glob Bind/Model.v.beautified Bind/Model.required_vo: Bind/Model.v 
+Bind/Model.vio: Bind/Model.v 
+Bind/Model.vos Bind/Model.vok Bind/Model.required_vos: Bind/Model.v 
+Booleq/Model.vo Booleq/Model.glob Booleq/Model.v.beautified Booleq/Model.required_vo: Booleq/Model.v 
+Booleq/Model.vio: Booleq/Model.v 
+Booleq/Model.vos Booleq/Model.vok Booleq/Model.required_vos: Booleq/Model.v 
+Booleq/Proofs.vo Booleq/Proofs.glob Booleq/Proofs.v.beautified Booleq/Proofs.required_vo: Booleq/Proofs.v Booleq/Model.vo
+Booleq/Proofs.vio: Booleq/Proofs.v Booleq/Model.vio
+Booleq/Proofs.vos Booleq/Proofs.vok Booleq/Proofs.required_vos: Booleq/Proofs.v Booleq/Model.vos
+Directors/Cases.vo Directors/Cases.glob Directors/Cases.v.beautified Directors/Cases.required_vo: Directors/Cases.v Directors/Model.vo
+Directors/Cases.vio: Directors/Cases.v Directors/Model.vio
+Directors/Cases.vos Directors/Cases.vok Directors/Cases.required_vos: Directors/Cases.v Directors/Model.vos
+Directors/Model.vo Directors/Model.glob Directors/Model.v.beautified Directors/Model.required_vo: Directors/Model.v Generated/C03_ErrorClasses.vo
+Directors/Model.vio: Directors/Model.v Generated/C03_ErrorClasses.vio
+Directors/Model.vos Directors/Model.vok Directors/Model.required_vos: Directors/Model.v Generated/C03_ErrorClasses.vos
+Extract/ExtractBind.vo Extract/ExtractBind.glob Extract/ExtractBind.v.beautified Extract/ExtractBind.required_vo: Extract/ExtractBind.v Bind/Model.vo
+Extract/ExtractBind.vio: Extract/ExtractBind.v Bind/Model.vio
+Extract/ExtractBind.vos Extract/ExtractBind.vok Extract/ExtractBind.required_vos: Extract/ExtractBind.v Bind/Model.vos
+Extract/ExtractPlan.vo Extract/ExtractPlan.glob Extract/ExtractPlan.v.beautified Extract/ExtractPlan.required_vo: Extract/ExtractPlan.v Plan/Model.vo
+Extract/ExtractPlan.vio: Extract/ExtractPlan.v Plan/Model.vio
+Extract/ExtractPlan.vos Extract/ExtractPlan.vok Extract/ExtractPlan.required_vos: Extract/ExtractPlan.v Plan/Model.vos
 Extract/ExtractReach.vo Extract/ExtractReach.glob Extract/ExtractReach.v.beautified Extract/ExtractReach.required_vo: Extract/ExtractReach.v Typegraph/Reach.vo
 Extract/ExtractReach.vio: Extract/ExtractReach.v Typegraph/Reach.vio
 Extract/ExtractReach.vos Extract/ExtractReach.vok Extract/ExtractReach.required_vos: Extract/ExtractReach.v Typegraph/Reach.vos
+Extract/ExtractSolver.vo Extract/ExtractSolver.glob Extract/ExtractSolver.v.beautified Extract/ExtractSolver.required_vo: Extract/ExtractSolver.v Typegraph/Graph.vo Typegraph/Solver.vo
+Extract/ExtractSolver.vio: Extract/ExtractSolver.v Typegraph/Graph.vio Typegraph/Solver.vio
+Extract/ExtractSolver.vos Extract/ExtractSolver.vok Extract/ExtractSolver.required_vos: Extract/ExtractSolver.v Typegraph/Graph.vos Typegraph/Solver.vos
+Flow/Model.vo Flow/Model.glob Flow/Model.v.beautified Flow/Model.required_vo: Flow/Model.v 
+Flow/Model.vio: Flow/Model.v 
+Flow/Model.vos Flow/Model.vok Flow/Model.required_vos: Flow/Model.v 
+Flow/Proofs.vo Flow/Proofs.glob Flow/Proofs.v.beautified Flow/Proofs.required_vo: Flow/Proofs.v Flow/Model.vo
+Flow/Proofs.vio: Flow/Proofs.v Flow/Model.vio
+Flow/Proofs.vos Flow/Proofs.vok Flow/Proofs.required_vos: Flow/Proofs.v Flow/Model.vos
+Generated/C03_ErrorClasses.vo Generated/C03_ErrorClasses.glob Generated/C03_ErrorClasses.v.beautified Generated/C03_ErrorClasses.required_vo: Generated/C03_ErrorClasses.v 
+Generated/C03_ErrorClasses.vio: Generated/C03_ErrorClasses.v 
+Generated/C03_ErrorClasses.vos Generated/C03_ErrorClasses.vok Generated/C03_ErrorClasses.required_vos: Generated/C03_ErrorClasses.v 
+Generated/C08_Invalidation.vo Generated/C08_Invalidation.glob Generated/C08_Invalidation.v.beautified Generated/C08_Invalidation.required_vo: Generated/C08_Invalidation.v Typegraph/History.vo
+Generated/C08_Invalidation.vio: Generated/C08_Invalidation.v Typegraph/History.vio
+Generated/C08_Invalidation.vos Generated/C08_Invalidation.vok Generated/C08_Invalidation.required_vos: Generated/C08_Invalidation.v Typegraph/History.vos
+Generated/C16_OpcodeFlags.vo Generated/C16_OpcodeFlags.glob Generated/C16_OpcodeFlags.v.beautified Generated/C16_OpcodeFlags.required_vo: Generated/C16_OpcodeFlags.v 
+Generated/C16_OpcodeFlags.vio: Generated/C16_OpcodeFlags.v 
+Generated/C16_OpcodeFlags.vos Generated/C16_OpcodeFlags.vok Generated/C16_OpcodeFlags.required_vos: Generated/C16_OpcodeFlags.v 
+Mro/Model.vo Mro/Model.glob Mro/Model.v.beautified Mro/Model.required_vo: Mro/Model.v 
+Mro/Model.vio: Mro/Model.v 
+Mro/Model.vos Mro/Model.vok Mro/Model.required_vos: Mro/Model.v 
+Mro/Proofs.vo Mro/Proofs.glob Mro/Proofs.v.beautified Mro/Proofs.required_vo: Mro/Proofs.v Mro/Model.vo
+Mro/Proofs.vio: Mro/Proofs.v Mro/Model.vio
+Mro/Proofs.vos Mro/Proofs.vok Mro/Proofs.required_vos: Mro/Proofs.v Mro/Model.vos
+Opt/Syntax.vo Opt/Syntax.glob Opt/Syntax.v.beautified Opt/Syntax.required_vo: Opt/Syntax.v 
+Opt/Syntax.vio: Opt/Syntax.v 
+Opt/Syntax.vos Opt/Syntax.vok Opt/Syntax.required_vos: Opt/Syntax.v 
+Plan/Model.vo Plan/Model.glob Plan/Model.v.beautified Plan/Model.required_vo: Plan/Model.v 
+Plan/Model.vio: Plan/Model.v 
+Plan/Model.vos Plan/Model.vok Plan/Model.required_vos: Plan/Model.v 
+Props/C08.vo Props/C08.glob Props/C08.v.beautified Props/C08.required_vo: Props/C08.v Typegraph/History.vo Typegraph/HistoryProofs.vo Generated/C08_Invalidation.vo
+Props/C08.vio: Props/C08.v Typegraph/History.vio Typegraph/HistoryProofs.vio Generated/C08_Invalidation.vio
+Props/C08.vos Props/C08.vok Props/C08.required_vos: Props/C08.v Typegraph/History.vos Typegraph/HistoryProofs.vos Generated/C08_Invalidation.vos
 Props/C09.vo Props/C09.glob Props/C09.v.beautified Props/C09.required_vo: Props/C09.v Typegraph/Reach.vo Typegraph/ReachProofs.vo
 Props/C09.vio: Props/C09.v Typegraph/Reach.vio Typegraph/ReachProofs.vio
 Props/C09.vos Props/C09.vok Props/C09.required_vos: Props/C09.v Typegraph/Reach.vos Typegraph/ReachProofs.vos
+Props/C17.vo Props/C17.glob Props/C17.v.beautified Props/C17.required_vo: Props/C17.v Booleq/Model.vo Booleq/Proofs.vo
+Props/C17.vio: Props/C17.v Booleq/Model.vio Booleq/Proofs.vio
+Props/C17.vos Props/C17.vok Props/C17.required_vos: Props/C17.v Booleq/Model.vos Booleq/Proofs.vos
+Typegraph/Graph.vo Typegraph/Graph.glob Typegraph/Graph.v.beautified Typegraph/Graph.required_vo: Typegraph/Graph.v 
+Typegraph/Graph.vio: Typegraph/Graph.v 
+Typegraph/Graph.vos Typegraph/Graph.vok Typegraph/Graph.required_vos: Typegraph/Graph.v 
+Typegraph/History.vo Typegraph/History.glob Typegraph/History.v.beautified Typegraph/History.required_vo: Typegraph/History.v 
+Typegraph/History.vio: Typegraph/History.v 
+Typegraph/History.vos Typegraph/History.vok Typegraph/History.required_vos: Typegraph/History.v 
+Typegraph/HistoryProofs.vo Typegraph/HistoryProofs.glob Typegraph/HistoryProofs.v.beautified Typegraph/HistoryProofs.required_vo: Typegraph/HistoryProofs.v Typegraph/History.vo
+Typegraph/HistoryProofs.vio: Typegraph/HistoryProofs.v Typegraph/History.vio
+Typegraph/HistoryProofs.vos Typegraph/HistoryProofs.vok Typegraph/HistoryProofs.required_vos: Typegraph/HistoryProofs.v Typegraph/History.vos
 Typegraph/Reach.vo Typegraph/Reach.glob Typegraph/Reach.v.beautified Typegraph/Reach.required_vo: Typegraph/Reach.v 
 Typegraph/Reach.vio: Typegraph/Reach.v 
 Typegraph/Reach.vos Typegraph/Reach.vok Typegraph/Reach.required_vos: Typegraph/Reach.v 
 Typegraph/ReachProofs.vo Typegraph/ReachProofs.glob Typegraph/ReachProofs.v.beautified Typegraph/ReachProofs.required_vo: Typegraph/ReachProofs.v Typegraph/Reach.vo
 Typegraph/ReachProofs.vio: Typegraph/ReachProofs.v Typegraph/Reach.vio
 Typegraph/ReachProofs.vos Typegraph/ReachProofs.vok Typegraph/ReachProofs.required_vos: Typegraph/ReachProofs.v Typegraph/Reach.vos
+Typegraph/Solver.vo Typegraph/Solver.glob Typegraph/Solver.v.beautified Typegraph/Solver.required_vo: Typegraph/Solver.v Typegraph/Graph.vo
+Typegraph/Solver.vio: Typegraph/Solver.v Typegraph/Graph.vio
+Typegraph/Solver.vos Typegraph/Solver.vok Typegraph/Solver.required_vos: Typegraph/Solver.v Typegraph/Graph.vos
